@@ -197,6 +197,15 @@ pub fn observe_prefixes_with_copies<S: AsRef<[u8]>>(docs: &[S], copies_first: bo
 
 /// unrelated library calls (accepted and rejected inputs) used to disturb any state kept between calls
 pub fn noise() {
+    noise_rounds(6)
+}
+
+/// a short version of `noise` (one round), used where it is called several times per case
+pub fn noise_light() {
+    noise_rounds(1)
+}
+
+fn noise_rounds(rounds: usize) {
     let deep_open: String = (0..12).map(|i| format!("<n{}>", i)).collect();
     let deep: String = format!("{}{}", deep_open, (0..12).rev().map(|i| format!("</n{}>", i)).collect::<String>());
     let inputs: Vec<String> = vec![
@@ -214,7 +223,7 @@ pub fn noise() {
         derive: "Zeta, Alpha".to_string(),
         sort: SortBy::XmlName,
     };
-    for round in 0..6 {
+    for round in 0..rounds {
         for x in &inputs {
             if let Ok(Ok(e)) = guarded(|| parse(x.as_bytes())) {
                 // public accessors used without rendering, renderings with unusual options
@@ -298,7 +307,7 @@ pub fn repeat_history_opt(docs: &[String], in_thread: usize, fresh_threads: usiz
                 let warm = warm_first == (k % 2 == 0);
                 let r = std::thread::spawn(move || {
                     if warm {
-                        noise();
+                        noise_light();
                     }
                     guarded(|| match prev {
                         None => parse(d.as_bytes()),
